@@ -249,7 +249,14 @@ func (c *boundedPool) pruneIdleConns(idleTime time.Duration) {
 			var newConns []*idleConn
 			for {
 				select {
-				case conn := <-conns:
+				case conn, ok := <-conns:
+					if !ok {
+						// The pool was closed while it was being pruned.
+						for _, conn := range newConns {
+							conn.c.Close()
+						}
+						return
+					}
 					if conn.t.Add(idleTime).Before(time.Now()) {
 						c.tryFree()
 						conn.c.Close()
@@ -263,6 +270,14 @@ func (c *boundedPool) pruneIdleConns(idleTime time.Duration) {
 		DONE:
 			if len(newConns) > 0 {
 				c.mu.RLock()
+				if c.conns == nil {
+					// The pool was closed while it was being pruned.
+					c.mu.RUnlock()
+					for _, conn := range newConns {
+						conn.c.Close()
+					}
+					return
+				}
 				for _, conn := range newConns {
 					c.conns <- conn
 				}
